@@ -387,6 +387,21 @@ def asm_all():
                         die(fname + ": bias pattern wider than 32 bits")
                 sh = re.findall(r"v?psrlw\s+(?:[xy]mm\d,\s*)?[xy]mm\d,\s*(\d+)\s*$", re.sub(r";.*", "", txt), re.M)
                 P("Definition %s_shifts : list Z := [%s]." % (tag, "; ".join(sh)))
+            if base == "jdsample":
+                txt = re.sub(r";.*", "", rd("simd/x86_64/" + fname))
+                i1 = txt.find("EXTN(jsimd_h2v1_fancy_upsample_%s):" % isa)
+                i2 = txt.find("EXTN(jsimd_h2v2_fancy_upsample_%s):" % isa)
+                i3 = txt.find("EXTN(jsimd_h2v1_upsample_%s):" % isa)
+                if not (0 <= i1 < i2 < i3):
+                    die(fname + ": fancy upsample entry points not found in the expected order")
+                for nm, seg in (("h2v1", txt[i1:i2]), ("h2v2", txt[i2:i3])):
+                    sh = re.findall(r"v?psrlw\s+(?:[xy]mm\d,\s*)?[xy]mm\d,\s*(\d+)\s*$", seg, re.M)
+                    if not sh:
+                        die("%s: no psrlw in %s fancy upsample" % (fname, nm))
+                    P("Definition %s_%s_fancy_psrlw : list Z := [%s]." % (tag, nm, "; ".join(sh)))
+                    ks = re.findall(r"v?(pmullw|paddw)\s+(?:[xy]mm\d,\s*)?[xy]mm\d,\s*\[rel (PW_[A-Z]+)\]", seg)
+                    P("Definition %s_%s_fancy_rows : list (string * string) := [%s]." % (
+                        tag, nm, "; ".join('("%s", "%s")' % k for k in sorted(set(ks)))))
             P()
     # every row must have the length of its vector (16 or 32 bytes)
     P("Definition asm_row_inventory : list (Z * Z * Z) :=   (* vector bytes, element bytes, length *)")
